@@ -103,18 +103,39 @@ class Book:
     def put(self, sheet, coord, v):
         self.cells[sheet][coord] = v
 
-    def run(self, ctx, family, extra_inputs=None):
+    def run(self, ctx, family, extra_inputs=None, after_other=False):
         path = W.write_xlsx([(t, self.cells[t]) for t in self.titles],
                             self.names)
+        old_ev = None
         try:
-            model = lib.ModelCompiler().read_and_parse_archive(path)
+            compiler = lib.ModelCompiler()
+            if after_other:
+                # another workbook first, through the same compiler: the same
+                # sheet titles, other contents, all sheets but the first
+                # hidden and left out - none of which is this workbook's
+                # business; the evaluator made for the first load is used on
+                # whatever model object the second load hands back
+                other = W.write_xlsx(
+                    [(t, {'A1': 7777, 'B2': '=A1+1', 'H1': '=SUM(A1:B2)'})
+                     for t in self.titles], None, hidden=self.titles[1:])
+                first = compiler.read_and_parse_archive(other,
+                                                        ignore_hidden=True)
+                old_ev = lib.Evaluator(first)
+                lib.observe(old_ev.evaluate, '%s!H1' % self.titles[0])
+            model = compiler.read_and_parse_archive(path)
+            if old_ev is not None and old_ev.model is not model:
+                old_ev = None
         except Exception as exc:  # noqa: BLE001
             ctx.fail('C03/%s/load' % family, ['load'], None, 'loads',
                      lib.exc_obs(exc))
             return None
-        ev = lib.Evaluator(model)
+        ev = old_ev or lib.Evaluator(model)
         for host, coord, key, want, tags, nontriv, formula in self.probes:
             got = lib.observe(ev.evaluate, '%s!%s' % (host, coord))
+            if after_other:
+                key = key.replace('C03/', 'C03/after-other/', 1)
+                tags = list(tags) + ['history:second-load-of-compiler'] + (
+                    ['evaluator:made-before-load'] if old_ev else [])
             inputs = {'family': family, 'key': key}
             inputs.update(extra_inputs or {})
             ctx.check(key, got, want, tags, inputs, nontriv,
@@ -860,6 +881,11 @@ def plan(tier):
         for pattern in PATTERNS:
             shards.append({'family': 'range', 'cfg': cfg, 'pattern': pattern,
                            'weight': 9})
+    # the same through a compiler (and an evaluator) that has loaded another
+    # workbook before
+    for cfg, pattern in (('two', 'dense'), ('quotedfirst', 'checker')):
+        shards.append({'family': 'range-after-other', 'cfg': cfg,
+                       'pattern': pattern, 'weight': 9})
     mc = BOUNDS[tier]['pattern_cells']
     for rect in small_rectangles(mc):
         shards.append({'family': 'fill', 'rect': list(rect), 'max_cells': mc})
@@ -895,6 +921,10 @@ def run_shard(shard, ctx):
         book = range_book(shard['cfg'], shard['pattern'])
         book.run(ctx, f, {'cfg': shard['cfg'], 'pattern': shard['pattern']})
         ctx.sample({'family': f, 'probe': book.probes[-1][6]})
+    elif f == 'range-after-other':
+        book = range_book(shard['cfg'], shard['pattern'])
+        book.run(ctx, f, {'cfg': shard['cfg'], 'pattern': shard['pattern']},
+                 after_other=True)
     elif f == 'fill':
         run_fill(tuple(shard['rect']), shard['max_cells'], ctx)
     elif f == 'gap':
